@@ -1,0 +1,138 @@
+//go:build verif
+
+package disk
+
+// Accessors for the verification harness under /verif (build tag "verif").
+// Nothing in this file is compiled into a normal build.
+
+import (
+	"container/list"
+
+	"github.com/buchgr/bazel-remote/v2/cache"
+)
+
+// VerifItem mirrors lruItem with exported fields.
+type VerifItem struct {
+	Size       int64
+	SizeOnDisk int64
+	Random     string
+	Legacy     bool
+}
+
+// VerifEntry mirrors entry.
+type VerifEntry struct {
+	Key  string
+	Item VerifItem
+}
+
+// VerifSnapshot is the observable state of a SizedLRU.
+type VerifSnapshot struct {
+	Order    []VerifEntry // least recently used first
+	Cur      int64
+	Unc      int64
+	Res      int64
+	Queued   int64
+	Peak     uint64
+	Queue    []VerifEntry // entries waiting for file removal, oldest first
+	NumItems int
+}
+
+func toVerifItem(i lruItem) VerifItem {
+	return VerifItem{Size: i.size, SizeOnDisk: i.sizeOnDisk, Random: i.random, Legacy: i.legacy}
+}
+
+func fromVerifItem(i VerifItem) lruItem {
+	return lruItem{size: i.Size, sizeOnDisk: i.SizeOnDisk, random: i.Random, legacy: i.Legacy}
+}
+
+func verifSnapshot(c *SizedLRU) VerifSnapshot {
+	s := VerifSnapshot{
+		Cur:      c.currentSize,
+		Unc:      c.uncompressedSize,
+		Res:      c.reservedSize,
+		Queued:   c.queuedEvictionsSize.Load(),
+		Peak:     c.totalDiskSizePeak,
+		NumItems: len(c.cache),
+	}
+	for e := c.ll.Back(); e != nil; e = e.Prev() {
+		kv := e.Value.(*entry)
+		s.Order = append(s.Order, VerifEntry{Key: kv.key, Item: toVerifItem(kv.value)})
+	}
+	select {
+	case q := <-c.queuedEvictionsChan:
+		for _, kv := range q {
+			s.Queue = append(s.Queue, VerifEntry{Key: kv.key, Item: toVerifItem(kv.value)})
+		}
+		c.queuedEvictionsChan <- q
+	default:
+	}
+	return s
+}
+
+// VerifLRU drives a bare SizedLRU (single goroutine).
+type VerifLRU struct {
+	lru     SizedLRU
+	Evicted []VerifEntry // filled by the eviction callback
+}
+
+func NewVerifLRU(maxSize, hardLimit int64) *VerifLRU {
+	v := &VerifLRU{}
+	v.lru = NewSizedLRU(maxSize, func(key string, value lruItem) {
+		v.Evicted = append(v.Evicted, VerifEntry{Key: key, Item: toVerifItem(value)})
+	}, 0)
+	if hardLimit > 0 {
+		v.lru.maxSizeHardLimit = hardLimit
+	}
+	return v
+}
+
+func (v *VerifLRU) Add(key string, item VerifItem) bool { return v.lru.Add(key, fromVerifItem(item)) }
+
+func (v *VerifLRU) Get(key string) (VerifItem, bool) {
+	i, e := v.lru.Get(key)
+	return toVerifItem(i), e != nil
+}
+
+func (v *VerifLRU) RemoveKey(key string) { v.lru.RemoveKey(key) }
+
+// RemoveViaHandle performs Get followed by RemoveElement on the returned handle.
+func (v *VerifLRU) RemoveViaHandle(key string) bool {
+	var e *list.Element
+	_, e = v.lru.Get(key)
+	if e == nil {
+		return false
+	}
+	v.lru.RemoveElement(e)
+	return true
+}
+
+// errCode maps an error of Reserve/Unreserve to 0 (nil), the cache.Error code, or -1.
+func errCode(err error) int {
+	if err == nil {
+		return 0
+	}
+	if ce, ok := err.(*cache.Error); ok {
+		return ce.Code
+	}
+	return -1
+}
+
+func (v *VerifLRU) Reserve(n int64) int   { return errCode(v.lru.Reserve(n)) }
+func (v *VerifLRU) Unreserve(n int64) int { return errCode(v.lru.Unreserve(n)) }
+
+// Drain runs the background remover once if something is queued and returns what it removed.
+func (v *VerifLRU) Drain() []VerifEntry {
+	v.Evicted = nil
+	if len(v.lru.queuedEvictionsChan) == 0 {
+		return nil
+	}
+	v.lru.performQueuedEvictions()
+	return v.Evicted
+}
+
+func (v *VerifLRU) Snapshot() VerifSnapshot { return verifSnapshot(&v.lru) }
+
+// VerifRoundUp4k, VerifSumLargerThan, VerifIsSizeMismatch expose the pure helpers.
+func VerifRoundUp4k(n int64) int64          { return roundUp4k(n) }
+func VerifSumLargerThan(a, b, c int64) bool { return sumLargerThan(a, b, c) }
+func VerifIsSizeMismatch(r, f int64) bool   { return isSizeMismatch(r, f) }
